@@ -37,8 +37,15 @@ DEFECT_LINE = {
 }
 # variants of the same class (index chosen by position so that all are used)
 DEFECT_VARIANTS = {
-    'illegal_rel_via_symbol': ['dir -rel HOME_PATH newdir', 'file -rel HOME_PATH x.txt = y', 'dir @[HOME_PATH]@/newdir'],
-    'syntax_args': ['file', 'def string', 'timeout ='],
+    'illegal_rel_via_symbol': ['dir -rel HOME_PATH newdir', 'file -rel HOME_PATH x.txt = y', 'dir @[HOME_PATH]@/newdir',
+                               # the result directory: never for what is created; before [act] not for what is read
+                               {'setup': 'file fr.txt = -contents-of @[RESULT_PATH]@', 'other': 'dir -rel RESULT_PATH newdir'},
+                               {'setup': 'copy @[RESULT_PATH]@ dst', 'other': 'file @[RESULT_PATH]@ = y'},
+                               {'setup': 'stdin = -contents-of -rel RESULT_PATH x', 'other': 'copy -rel-home exists.txt @[RESULT_PATH]@'}],
+    'syntax_args': ['file', 'def string', 'timeout =',
+                    {'setup': 'copy -rel-result stdout dst', 'other': 'file -rel-result x.txt = y'}],
+    # (the lines of [act] are in ACT, per actor; this entry gives the number of variants)
+    'act_syntax': [0, 1, 2, 3],
     'undef_symbol': ['def string U = @[UNDEFINED]@', 'def list UL = a @[UNDEFINED]@', '$ echo @[UNDEFINED]@',
                      'def path UP = -rel UNDEFINED x'],
     'missing_home_file': ['run -python -existing-file -rel-home missing.py', 'run -rel-home missing-program',
@@ -61,9 +68,13 @@ DEFECT_VARIANTS = {
                    'timeout = @[INDIRECT]@', 'env @[INDIRECT]@ = v'],
 }
 ACT = {
-    'command-line': dict(conf='', ok='$ touch {mark}/act', act_syntax="'unterminated",
+    'command-line': dict(conf='', ok='$ touch {mark}/act',
+                         # ... and source that is left after a complete PROGRAM
+                         act_syntax=["'unterminated", '$ touch {mark}/act\n$ touch {mark}/act2', '% touch {mark}/act\nstray text',
+                                     "% touch {mark}/act\n  -stdin 'x'\n\nstray"],
                          act_undef_symbol='% sh @[UNDEFINED]@', act_missing_program='missing-program arg'),
-    'file': dict(conf='actor = file % sh', ok='script.sh', act_syntax="'unterminated",
+    'file': dict(conf='actor = file % sh', ok='script.sh',
+                 act_syntax=["'unterminated", 'script.sh\nscript.sh', 'script.sh a\n  b', "script.sh 'a"],
                  act_undef_symbol='script.sh @[UNDEFINED]@', act_missing_program='missing-script.sh'),
     'source': dict(conf='actor = source % sh', ok='touch {mark}/act', act_undef_symbol='echo @[UNDEFINED]@'),
 }
@@ -81,6 +92,7 @@ def concretize(c, mark):
         pre = []
         if ph == 'setup':
             pre = ['def string DEFINED = v', 'def path HOME_PATH = -rel-home sub', 'def path HERE_PATH = -rel-here sub',
+                   'def path RESULT_PATH = -rel-result stdout',
                    'def string INDIRECT = @[DEFINED]@-@[HOME_PATH]@', 'def program PGM = % true a',
                    'def program PGM2 = @ PGM b']
             lines.append('file created-%s.txt = x' % ph)
@@ -91,11 +103,15 @@ def concretize(c, mark):
             else:
                 line = vs[(c['dpos'] + INSTR_PHASES.index(ph)) % len(vs)] if vs else DEFECT_LINE[c['defect']]
             if isinstance(line, dict):
-                line = line['assert' if ph == 'assert' else 'other']
+                line = line.get(ph, line['other'])
             lines.insert(c['dpos'] - 1, line)
         parts.append('[%s]\n%s\n' % (PHASE_NAME[ph], '\n'.join(pre + lines)))
         if ph == 'setup':
             act = a[c['defect']] if c['dphase'] == 'act' else a['ok']
+            if isinstance(act, list):
+                v = c['variant'] if c.get('variant') is not None else (
+                    ['normal', 'keep', 'act'].index(c['mode']) + (c['frontend'] == 'symbol'))
+                act = act[v % len(act)]
             parts.append('[act]\n%s\n' % act.format(mark=mark))
     text = ''.join(parts)
     if c['defect'] == 'defined_later':
@@ -186,13 +202,16 @@ def run(ctx):
     ctx.require_coverage(res, ['ReadDocument', 'Exec', 'SymbolReport'])
     exp = ctx.tlc('InvalidExport', cfg(base, invariants=['Export']), workers=1, name='export', count=False)
     cases = exp.printed_json('CASE')
-    if not quick:
-        # every variant of the defect class at every place (the quick tier rotates the variants over the places)
-        more = []
-        for c in cases:
+    # every variant of the defect class at every place (the quick tier rotates the variants over the places -
+    # except those of the classes with variants that depend on the phase)
+    more = []
+    for c in cases:
+        if not quick or c['defect'] in ('illegal_rel_via_symbol', 'act_syntax'):
             for v in range(len(DEFECT_VARIANTS.get(c['defect'], [None]))):
                 more.append(dict(c, variant=v))
-        cases = more
+        else:
+            more.append(c)
+    cases = more
     with ctx.pool() as pool:
         obs = pool.map('harness.props.c03:exec_case', cases, deadline=60, chunk=8)
         sanity = pool.map('harness.props.c03:exec_base',
